@@ -7,7 +7,8 @@ import (
 )
 
 func (vt *Model) handleMouse(msg vaxis.Mouse) string {
-	if !vt.mode.mouseButtons && !vt.mode.mouseDrag && !vt.mode.mouseMotion && !vt.mode.mouseSGR {
+	// mouseSGR only selects the encoding, it does not enable reporting
+	if !vt.mode.mouseButtons && !vt.mode.mouseDrag && !vt.mode.mouseMotion {
 		if vt.mode.altScroll && vt.mode.smcup {
 			// Translate wheel motion into arrows up and down
 			// 3x rows
@@ -28,8 +29,9 @@ func (vt *Model) handleMouse(msg vaxis.Mouse) string {
 	if !vt.mode.mouseMotion && msg.EventType == vaxis.EventMotion && msg.Button == vaxis.MouseNoButton {
 		return ""
 	}
-	// Return early if we aren't reporting drags
-	if !vt.mode.mouseDrag && msg.EventType == vaxis.EventMotion {
+	// Return early if we aren't reporting drags (any-motion tracking
+	// includes them)
+	if !vt.mode.mouseDrag && !vt.mode.mouseMotion && msg.EventType == vaxis.EventMotion {
 		return ""
 	}
 
